@@ -466,8 +466,8 @@ def oracle(c, o):
             if v is None:
                 return None
             rows += termemu.wrap_rows(v, w)
-        if lines != len(rows):
-            return "row-count-disagrees-with-content"
+        # (section.lines - the row count the section keeps for itself - is compared with the model, not asked of here: the
+        # statement speaks of the screen and of the contents, not of the accounting)
         stack += rows
     got = [unS(x) for x in screen]
     if not good and cut18(ops):
